@@ -398,14 +398,7 @@ package ipfslog
 //@   ensures [entry-load-keeps-every-supplied-entry] err == nil ==> forall i int :: 0 <= i && i < len(sourceEntries) ==> exists j int :: 0 <= j && j < len(result0.Values) && ehash(result0.Values[j]) == ehash(sourceEntries[i])
 //@   ensures err == nil ==> result0 != nil && validSlice(result0.Values)
 //@   replay loadlimit
+//@   assert "result := entry.NewOrderedMapFromEntries(sourceEntries).Slice()" [supplied-entries-are-in-the-unique-list] forall i int :: 0 <= i && i < len(sourceEntries) ==> exists p int :: 0 <= p && p < len(result) && ehash(result[p]) == ehash(sourceEntries[i])
+//@   assert "result = append(result, others...)" [supplied-entries-survive-the-append] forall i int :: 0 <= i && i < len(sourceEntries) ==> exists p int :: 0 <= p && p < len(result) && ehash(result[p]) == ehash(sourceEntries[i])
 //@   loop 0
 //@     invariant len(hashes) == $k && (hashes == nil || fresh(hashes))
-//@   loop 1
-//@     invariant fresh(isSource)
-//@     invariant forall i int :: 0 <= i && i < $k ==> has(isSource, ehash(sourceEntries[i])) && isSource[ehash(sourceEntries[i])]
-//@   loop 2
-//@     invariant fresh(isSource) && validSlice(result) && validSlice(sliced) && (result == nil || fresh(result) || result == missingSourceEntries)
-//@     invariant forall i int :: 0 <= i && i < len(sourceEntries) ==> has(isSource, ehash(sourceEntries[i])) && isSource[ehash(sourceEntries[i])]
-//@     invariant 0 <= toDrop && toDrop <= len(missingSourceEntries) && len(result) == len(missingSourceEntries) + $k - (len(missingSourceEntries) - toDrop)
-//@     invariant forall i int :: 0 <= i && i < len(missingSourceEntries) ==> result[i] == missingSourceEntries[i]
-//@     invariant forall j int :: 0 <= j && j < $k && has(isSource, ehash(sliced[j])) && isSource[ehash(sliced[j])] ==> exists q int :: 0 <= q && q < len(result) && result[q] == sliced[j]
